@@ -390,6 +390,10 @@ pub async fn lookup_audit(
     source_port: u16,
     redirector_shared_state: &RedirectorSharedState,
 ) -> Result<AuditEntry> {
+    #[cfg(azure_guestproxyagent_verif)]
+    if let Some(result) = verif_hooks::lookup(source_port) {
+        return result;
+    }
     if let Ok(Some(bpf_object)) = redirector_shared_state.get_bpf_object().await {
         bpf_object.lock().unwrap().lookup_audit(source_port)
     } else {
@@ -401,6 +405,10 @@ pub async fn remove_audit(
     source_port: u16,
     redirector_shared_state: &RedirectorSharedState,
 ) -> Result<()> {
+    #[cfg(azure_guestproxyagent_verif)]
+    if let Some(result) = verif_hooks::remove(source_port) {
+        return result;
+    }
     if let Ok(Some(bpf_object)) = redirector_shared_state.get_bpf_object().await {
         bpf_object
             .lock()
@@ -408,6 +416,115 @@ pub async fn remove_audit(
             .remove_audit_map_entry(source_port)
     } else {
         Err(Error::Bpf(BpfErrorType::NullBpfObject))
+    }
+}
+
+/// Verification hooks (compiled only with `--cfg azure_guestproxyagent_verif`).
+/// A process-global stand-in for the kernel audit map, consulted by `lookup_audit` /
+/// `remove_audit` before the BPF object, plus a trace of lookups, removals and
+/// redirect-policy updates.  Nothing here exists in a normal build.
+#[cfg(azure_guestproxyagent_verif)]
+pub mod verif_hooks {
+    use super::AuditEntry;
+    use crate::common::error::{BpfErrorType, Error};
+    use crate::common::result::Result;
+    use once_cell::sync::Lazy;
+    use std::collections::HashMap;
+    use std::sync::atomic::{AtomicBool, Ordering};
+    use std::sync::Mutex;
+
+    #[derive(Clone, Debug, PartialEq)]
+    pub enum Event {
+        Lookup { port: u16, found: bool },
+        Remove { port: u16, found: bool, failed: bool },
+        Policy { endpoint: &'static str, redirect: bool },
+    }
+
+    /// (logon_id, process_id, is_admin, destination_ipv4 (network order), destination_port (network order))
+    pub type Record = (u64, u32, i32, u32, u16);
+
+    pub static ENABLED: AtomicBool = AtomicBool::new(false);
+    pub static FAIL_REMOVE: AtomicBool = AtomicBool::new(false);
+    pub static AUDIT: Lazy<Mutex<HashMap<u16, Record>>> = Lazy::new(|| Mutex::new(HashMap::new()));
+    pub static TRACE: Lazy<Mutex<Vec<Event>>> = Lazy::new(|| Mutex::new(Vec::new()));
+
+    pub fn enable() {
+        ENABLED.store(true, Ordering::SeqCst);
+    }
+
+    pub fn insert(source_port: u16, record: Record) {
+        AUDIT.lock().unwrap().insert(source_port, record);
+    }
+
+    pub fn snapshot() -> Vec<(u16, Record)> {
+        let mut v: Vec<(u16, Record)> = AUDIT.lock().unwrap().iter().map(|(k, v)| (*k, *v)).collect();
+        v.sort();
+        v
+    }
+
+    pub fn take_trace() -> Vec<Event> {
+        std::mem::take(&mut *TRACE.lock().unwrap())
+    }
+
+    pub fn policy(endpoint: &'static str, redirect: bool) {
+        if ENABLED.load(Ordering::SeqCst) {
+            TRACE.lock().unwrap().push(Event::Policy { endpoint, redirect });
+        }
+    }
+
+    pub fn lookup(source_port: u16) -> Option<Result<AuditEntry>> {
+        if !ENABLED.load(Ordering::SeqCst) {
+            return None;
+        }
+        let found = AUDIT.lock().unwrap().get(&source_port).copied();
+        TRACE.lock().unwrap().push(Event::Lookup {
+            port: source_port,
+            found: found.is_some(),
+        });
+        Some(match found {
+            Some(r) => Ok(AuditEntry {
+                logon_id: r.0,
+                process_id: r.1,
+                is_admin: r.2,
+                destination_ipv4: r.3,
+                destination_port: r.4,
+            }),
+            None => Err(Error::Bpf(BpfErrorType::MapLookupElem(
+                source_port.to_string(),
+                "verif stand-in: no such entry".to_string(),
+            ))),
+        })
+    }
+
+    pub fn remove(source_port: u16) -> Option<Result<()>> {
+        if !ENABLED.load(Ordering::SeqCst) {
+            return None;
+        }
+        if FAIL_REMOVE.load(Ordering::SeqCst) {
+            TRACE.lock().unwrap().push(Event::Remove {
+                port: source_port,
+                found: AUDIT.lock().unwrap().contains_key(&source_port),
+                failed: true,
+            });
+            return Some(Err(Error::Bpf(BpfErrorType::MapDeleteElem(
+                source_port.to_string(),
+                "verif stand-in: injected failure".to_string(),
+            ))));
+        }
+        let found = AUDIT.lock().unwrap().remove(&source_port).is_some();
+        TRACE.lock().unwrap().push(Event::Remove {
+            port: source_port,
+            found,
+            failed: false,
+        });
+        Some(if found {
+            Ok(())
+        } else {
+            Err(Error::Bpf(BpfErrorType::MapDeleteElem(
+                source_port.to_string(),
+                "verif stand-in: no such entry".to_string(),
+            )))
+        })
     }
 }
 
